@@ -39,6 +39,7 @@ def run_batch(args) -> dict:
     scheds = set()
     states = set()
     run_digest_list = []
+    first_keys = []
     new_keys: dict[str, dict] = {}
     min_steps = getattr(mod, "NONTRIVIAL_STEPS", 3)
     for r in range(args.runs):
@@ -68,6 +69,8 @@ def run_batch(args) -> dict:
         if ctx.profile:
             out["profiles"][canon(ctx.profile)[:200]] += 1
         d = ctx.log_digest()
+        if r == 0:
+            first_keys = ctx.keys()
         run_digest_list.append(d)
         digests.add(d)
         if ctx.steps >= min_steps and not ctx.discard:
@@ -90,6 +93,28 @@ def run_batch(args) -> dict:
                 new_keys[k]["count"] += 1
                 if len(ch.trace) < len(new_keys[k]["choices"]):
                     new_keys[k].update(v=v, choices=list(ch.trace), run_seed=run_seed, r=r, cfg=cfg)
+    # isolation self-check: one seed is one repeatable execution.  Re-execute the first run of the batch now that
+    # every other run has happened in this interpreter; if its event log or verdict changed, the system under test
+    # kept state across independent histories (a process-global cache, a shared default object, state left behind
+    # by an exception).  Reported as a violation whose replay file is the batch order itself.
+    if out["runs"] >= 2 and not out["harness_errors"] and getattr(mod, "ISOLATION_CHECK", True):
+        first_seed = H(args.batch_seed, 0)
+        c0 = dict(base_cfg, run_index=0)
+        try:
+            again = execute(mod, Choices(seed=first_seed), c0)
+            solo_digest = run_digest_list[0] if run_digest_list else None
+            if solo_digest is not None and (again.log_digest() != solo_digest or sorted(again.keys()) != sorted(first_keys)):
+                key = f"{args.prop}/isolation/first-run-differs-when-repeated-after-the-batch"
+                if key not in known:
+                    out["violations"].append({
+                        "key": key, "property": args.prop, "clause": "isolation", "cls": "first-run-differs-when-repeated-after-the-batch",
+                        "detail": {"first_run_keys": sorted(first_keys), "repeated_keys": sorted(again.keys()),
+                                   "digest_first": solo_digest, "digest_repeated": again.log_digest(), "runs_in_between": out["runs"] - 1},
+                        "run_seed": first_seed, "count": 1, "choices": [], "orig_len": 0, "min_execs": 0,
+                        "log_digest": again.log_digest(), "trace": again.events[-30:], "profile": again.profile, "cfg": c0,
+                        "all_keys": [key], "kind": "batch-order", "batch_runs": out["runs"], "batch_seed": args.batch_seed})
+        except Exception as e:  # noqa: BLE001
+            out["harness_errors"].append({"run_seed": first_seed, "error": f"isolation re-execution raised {e!r}"})
     # minimise new violations (same interpreter, same hash seed)
     per_key_budget = max(3.0, min(20.0, args.min_budget_s / max(1, len(new_keys))))
     for k, rec in sorted(new_keys.items()):
@@ -128,6 +153,18 @@ def run_replay(args) -> dict:
     with open(args.replay) as f:
         rp = json.load(f)
     mod = load_prop(rp["property"])
+    if rp.get("kind") == "batch-order":
+        base = dict(rp.get("cfg") or {"tier": rp.get("tier", "quick")})
+        bs, n = rp["batch_seed"], rp["batch_runs"]
+        first = None
+        for r in range(n):
+            c = execute(mod, Choices(seed=H(bs, r)), dict(base, run_index=r))
+            if r == 0:
+                first = (c.log_digest(), sorted(c.keys()))
+        again = execute(mod, Choices(seed=H(bs, 0)), dict(base, run_index=0))
+        differs = (again.log_digest(), sorted(again.keys())) != first
+        return {"replay": args.replay, "keys": [rp["key"]] if differs else [], "expected_key": rp["key"], "reproduced": differs,
+                "log_digest": again.log_digest(), "expected_digest": rp.get("log_digest"), "violations": [], "trace": again.events[-20:]}
     cfg = dict(rp.get("cfg") or {"tier": rp.get("tier", "quick")}, replay=True)
     ctx = execute(mod, Choices(replay=list(rp["choices"])), cfg)
     keys = ctx.keys()
